@@ -150,6 +150,7 @@ CHECKS["C04"] = {
         {"part": "values", "pkg": ROOT, "test": "TestVerif_C04_Values", "quick": 5000, "thorough": 40000},
         {"part": "fullrt", "pkg": "./fullrt/", "test": "TestVerif_C04_FullRT", "quick": 2400, "thorough": 20000},
         {"part": "public-key", "pkg": ROOT, "test": "TestVerif_C04_PublicKey", "quick": 3000, "thorough": 25000},
+        {"part": "dual", "pkg": "./dual/", "test": "TestVerif_C04_Dual", "quick": 1500, "thorough": 12000},
     ],
 }
 
